@@ -851,6 +851,9 @@ def ctor_domain_search(cls_name):
         "DistGamma": lambda p: p[0] > 0 and p[1] > 0, "DistPoisson": lambda p: p[0] > 0,
         "DistTriangular": lambda p: p[0] <= p[1] <= p[2] and p[0] != p[2], "DistUniform": lambda p: p[0] < p[1],
         "DistWeibull": lambda p: p[0] > 0 and p[1] > 0, "DistNormal": lambda p: p[1] > 0, "DistLogNormal": lambda p: p[1] > 0,
+        "DistPearson5": lambda p: p[0] > 0 and p[1] > 0, "DistPearson6": lambda p: p[0] > 0 and p[1] > 0 and p[2] > 0,
+        "DistBeta": lambda p: p[0] > 0 and p[1] > 0, "DistErlang": lambda p: p[0] > 0 and p[1] > 0,
+        "DistGeometric": lambda p: 0 <= p[0] < 1, "DistNegBinomial": lambda p: p[0] > 0 and 0 <= p[1] < 1,
     }
     if cls_name not in DOMAIN or cls_name not in DIST_GRID:
         return None
